@@ -174,14 +174,20 @@ CLAIMED["C20"] = {
             "true/false/0/1 forms, relative paths resolved to absolute existing ones, data-type names mapped, lists item-wise) or a "
             "parameter error - never a raw exception (C20_errors_are_parameter_errors); cleaning a cleaned value returns it "
             "unchanged under an absolute working directory (C20_idempotent); the outcome is a function of declaration, environment "
-            "and value only. Ties regenerated every run: exception classes caught and kind guards present in params.py (AST), all "
+            "and value only. PURITY FROM THE SOURCE: the ownership/effect IR of every clean() body of params.py (regenerated from "
+            "the AST on every run; inputs = the parameter object, the raw value, the program) passes the may-alias ownership "
+            "check of C09 (C20_clean_bodies_pass, vm_compute), hence - by the soundness theorem of that check - every object that "
+            "exists when clean() is entered is in the same state when it returns or raises, for every execution of the body "
+            "(C20_clean_is_pure). Ties regenerated every run: exception classes caught and kind guards present in params.py (AST), all "
             "declared parameters are of modelled classes, accepts() table from the live classes. Differential runs compare the "
             "model with Parameter.clean over all declarations x raw kinds x working directories, with repeat, idempotence, "
             "deep-copy and fresh-object (history) oracles.",
     "note": "Trusted: Python's int()/float()/str() enter as oracle fields of raw values; POSIX os.path semantics modelled by hand; "
-            "purity is structural in the model (a Gallina function) and observed on the code by deep copies and by comparing a "
-            "long-lived parameter object with a fresh one.",
-    "technique": "Rocq proof (typedness, no-escape, idempotence by induction over declarations) + regenerated source facts + differential correspondence",
+            "purity is structural in the model (a Gallina function), decided on the source by the effect IR of the clean() bodies "
+            "(translator drivers/gen_cleanfx.py: calls of other cleaners and accepts() are taken as pure, justified by induction on "
+            "the declaration since every clean() body is itself checked) and observed on the code by deep copies and by comparing "
+            "a long-lived parameter object with a fresh one.",
+    "technique": "Rocq proof (typedness, no-escape, idempotence by induction over declarations; purity via the sound ownership check over the regenerated effect IR) + regenerated source facts + differential correspondence",
     "design": "DESIGN.md section 4 C20",
 }
 
@@ -256,19 +262,30 @@ PARSER_NOTE = ("Trusted: the scanners of Model/Lexer.v model Python's re on the 
                "replay of PLY's loop over the tables PLY generated (regenerated every run), default reductions included; the "
                "semantic actions are mirrored by hand; str(float) inside unquoted text is an oracle; \\N{...} escapes are outside.")
 CLAIMED["C10"] = {
-    "text": "PARTIAL. Rocq theorems for EVERY text / token sequence: every token the lexer model produces is the verbatim piece of the "
-            "source at its recorded position (C10_tokens_are_pieces_of_the_source, by an invariant over the scanning loop with a split "
-            "lemma per token rule); the LR driver - whatever the tables - returns a parse tree whose leaves are exactly the accepted "
-            "tokens in order (C10_parse_tree_yields_the_tokens); outcomes are a program, a syntax error or 'outside the model'. "
-            "Obligations over regenerated tables: token rule order, regex texts, t_ignore; grammar size and automaton. The round trip "
-            "is PROVED for the canonical layout the serialiser writes (every program, see C15_serialise_parse: lexer boundary "
-            "lemmas + simulation of the LALR automaton + semantic actions). NOT proved: layout irrelevance, i.e. the same for "
-            "every other rendering (comments, arbitrary blanks and line breaks, trailing commas, single quotes, unquoted text); it is covered "
-            "by differential runs only: random programs x layouts, corruptions, token soups, unquoted multi-word values, compared "
-            "with the real parser node for node, line numbers included.",
+    "text": "Rocq theorems. (1) For EVERY text / token sequence: every token the lexer model produces is the verbatim piece of the "
+            "source at its recorded position (C10_tokens_are_pieces_of_the_source); the LR driver - whatever the tables - returns a "
+            "parse tree whose leaves are exactly the accepted tokens in order (C10_parse_tree_yields_the_tokens); outcomes are a "
+            "program, a syntax error or 'outside the model'. Obligations over regenerated tables: token rule order, regex texts, "
+            "t_ignore; grammar size and automaton. (2) LAYOUT IRRELEVANCE (C10_layout_irrelevance, C10_same_denotation): for EVERY "
+            "surface program - quoted strings with either quote character and any escapes, integers and decimals in any spelling "
+            "the token rules accept, unquoted identifiers, lists at any nesting and dictionaries and argument lists with or "
+            "without trailing commas - and ANY gaps (blanks, tabs, LF/CR/CRLF line breaks, blank lines, comments, a final comment "
+            "without line break) before, between and after its tokens, the text parses to a version-3 program with the same "
+            "commands, names and, for every argument, the denotation of what was written; two renderings with the same denotation "
+            "parse to the same program, lines apart. Proved by: gap-skipping lemmas for the master regex, per-rule boundary lemmas "
+            "(STRING self-delimiting, INT/FLOAT/ID delimited by what may follow), simulation of the LALR automaton over the "
+            "regenerated tables per syntactic category incl. the trailing-comma productions, and evaluation of the semantic "
+            "actions; all hypotheses are computable booleans. The canonical layout of the serialiser is an instance for every "
+            "program (C15). PARTIAL: NOT proved for the forms outside the surface family - unquoted multi-word / colon text "
+            "(plain_string productions, PLAIN_STRING tokens), the EEMS 2.0 command form, dictionaries with unquoted keys or list "
+            "values; these are covered by differential runs only: random programs x layouts, corruptions, token soups, unquoted "
+            "multi-word values, compared with the real parser node for node, line numbers included. The evidence counts how many "
+            "generated renderings are instances of the theorem (Coq re-assembles each text from its decomposition and evaluates the "
+            "hypotheses).",
     "note": PARSER_NOTE + " Code limitation modelled faithfully and not counted as a violation of well-formed renderings: unquoted "
-            "multi-word values lose their blanks and re-print numerals (the renderer quotes such text).",
-    "technique": "Rocq proof (lexer/LR soundness for all inputs) over regenerated PLY tables + differential correspondence for the round trip",
+            "multi-word values lose their blanks and re-print numerals (the renderer quotes such text). The simulation lemmas are "
+            "tied to the concrete regenerated tables: a grammar edit re-checks them (they may break although the property holds).",
+    "technique": "Rocq proof (lexer/LR soundness for all inputs; layout irrelevance and round trip for the surface family, over regenerated PLY tables) + differential correspondence for the remaining forms",
     "design": "DESIGN.md section 4 C10",
 }
 CLAIMED["C11"] = {
